@@ -24,6 +24,8 @@ func init() {
 			"allocator as values; float64 rounding of 2^n for n < 62 (exact).",
 		Run: runC11,
 		Mutants: []Mutant{
+			{Name: "non-balancer-with-empty-status-keeps-address", File: "controller/service.go",
+				Old: "\tif svc.Spec.Type != v1.ServiceTypeLoadBalancer {\n", New: "\tif svc.Spec.Type != v1.ServiceTypeLoadBalancer {\n\t\tif len(svc.Status.LoadBalancer.Ingress) == 0 {\n\t\t\treturn nil\n\t\t}\n", Expect: "RELEASE-ON-EXIT"},
 			{Name: "unassign-forgets-tenant", File: "internal/allocator/allocator.go",
 				Old: "\t\tdelete(a.servicesOnIP[ip.String()], svc)\n", New: "", Expect: "SIBLING"},
 			{Name: "zero-delete-removed", File: "internal/allocator/allocator.go",
@@ -57,6 +59,9 @@ func runC11(p *chk.Prog, r *chk.Report) {
 	c11Refresh(p, r)
 	c11Numeric(p, r)
 	c11Stats(p, r)
+	releaseOnExitRule(p, r)
+	// a reconfiguration releases exactly the allocations no pool owns any more (REHOME, shared with C03)
+	c03Rehome(p, r)
 }
 
 var allocMaps = []string{"allocated", "sharingKeyForIP", "portsInUse", "servicesOnIP", "poolIPsInUse", "poolIPV4InUse", "poolIPV6InUse"}
